@@ -20,6 +20,7 @@ THEOREMS = [
     "KrroodVerif.SG.C20_current_no_pins_no_survivors",
     "KrroodVerif.SG.C20_cex_query_cache",
     "KrroodVerif.SG.C20_cex_index_entries",
+    "KrroodVerif.SG.C20_role_witness",
 ]
 MODEL_FUNCTION = ("SG.step / Heap.collect / Heap.roots / SG.sweep / SG.removeNode (Model/SymbolGraph.lean), looped by "
                   "Drive/C20.lean under the LIFO allocator")
@@ -36,9 +37,9 @@ ASSUMPTIONS = [
     "_instance_index is compared only where it does not depend on which id() CPython recycles ('?' otherwise)",
     "sizes are read from the structures the property names (_instance_index, _class_to_wrapped_instances, "
     "_relation_index, _id_expression_map_, RWXNode._graph); a structure that no longer exists counts as empty",
-    "role takers: the inference of Chair.head_of through the role taker is NOT in the Lean model; loops with roles "
-    "are query-free, so what they record cannot influence the observation (nothing is pinned: everything dies, "
-    "C20_no_pins_no_survivors) - the model side runs them with the role assertions left out",
+    "role takers: Role[Emp] instances hold their role taker in a plain field (a strong reference, Op.newrole) and the "
+    "inference of Chair.head_of / Chair.manages through the role taker is part of the proven model (SG.addFact); loops "
+    "with roles are query-free",
     "the window between a death and the next sweep is kept open, transitive assertions next to dead, unswept "
     "instances included (they raised before the repair of F-C14-2)",
 ]
